@@ -218,3 +218,26 @@ pub fn message_eq(a: &Message, b: &Message) -> bool {
         })
         && payload_eq(&a.payload, &b.payload)
 }
+
+/// symbolic NUL-free valid-UTF-8 string of EXACTLY N bytes (all sizes concrete for CBMC)
+pub fn text_exact<const N: usize>() -> String {
+    let b: [u8; N] = kani::any();
+    let mut i = 0;
+    while i < N {
+        kani::assume(b[i] != 0);
+        i += 1;
+    }
+    kani::assume(ref_utf8_prefix_len(&b) == N);
+    unsafe { String::from_utf8_unchecked(b.to_vec()) }
+}
+
+/// symbolic NUL-free ASCII string of EXACTLY N bytes
+pub fn ascii_exact<const N: usize>() -> String {
+    let b: [u8; N] = kani::any();
+    let mut i = 0;
+    while i < N {
+        kani::assume(b[i] != 0 && b[i] < 0x80);
+        i += 1;
+    }
+    unsafe { String::from_utf8_unchecked(b.to_vec()) }
+}
